@@ -14,13 +14,14 @@
 (***************************************************************************)
 EXTENDS RawStore, Json, IOUtils, TLCExt
 
-VARIABLES probing,   \* the execution has left the modelled domain (C15 probes): only safety is judged
+VARIABLES ident,     \* uuid() / version_name() of the library as first observed: constant for the life of the library (C10)
+          probing,   \* the execution has left the modelled domain (C15 probes): only safety is judged
           l,         \* index of the next log record
           tinfo      \* track id -> [path, base, ext] as given to create_track (inputs, for C11)
 
 Log == ndJsonDeserialize(IOEnv.TRACE)
 
-tvars == <<vars, l, tinfo, probing>>
+tvars == <<vars, l, tinfo, probing, ident>>
 
 Opt(x) == IF x = Root THEN <<>> ELSE <<x>>          \* options are logged as arrays of length <= 1
 SetOpt(S) == IF S = {} THEN {<<>>} ELSE {<<x>> : x \in S}
@@ -109,6 +110,9 @@ RawNow(r, TI) ==
 -----------------------------------------------------------------------------
 Has(r, f) == f \in DOMAIN r
 Obs2Now(r) == Has(r, "obs2") => Obs2OK(r.obs2, fam', live', dead', par', nm', kids', tlive', mem')
+\* uuid(), version_name() and directory() answer as they did when the library was created - through every connection
+IdentOK(r, id) == /\ (Has(r.obs, "ident") => r.obs.ident = id)
+                  /\ (Has(r, "obs2") /\ Has(r.obs2, "ident") => r.obs2.ident = id)
 Faulted(r) == Has(r, "fault") /\ r.fault.fired
 
 Step(r) ==
@@ -140,7 +144,7 @@ TProbe ==
        \* handles to removed crates stay safe to copy, assign and ask for their id
        /\ (Has(r, "probes") => r.probes.id.ok /\ r.probes.copy.ok /\ r.probes.is_valid.ok)
     /\ probing' = TRUE
-    /\ l' = l + 1 /\ UNCHANGED <<vars, tinfo>>
+    /\ l' = l + 1 /\ UNCHANGED <<vars, tinfo, ident>>
 
 TCall ==
     /\ l <= Len(Log)
@@ -160,7 +164,8 @@ TCall ==
                    THEN (r.new :> [path |-> r.path, base |-> r.base, ext |-> r.ext]) @@ tinfo
                    ELSE tinfo
        /\ RawNow(r, tinfo')
-    /\ l' = l + 1 /\ UNCHANGED probing
+       /\ IdentOK(r, ident)
+    /\ l' = l + 1 /\ UNCHANGED <<probing, ident>>
 
 \* Closing every handle and loading the library again: nothing observable changes, the loader
 \* reports the schema the library was created with (C10).
@@ -184,8 +189,9 @@ TReopen ==
        /\ Obs2Now(r)
        /\ NoWrite(r)
        /\ RawNow(r, tinfo)
+       /\ IdentOK(r, ident)
     /\ ~probing
-    /\ l' = l + 1 /\ UNCHANGED <<tinfo, probing>>
+    /\ l' = l + 1 /\ UNCHANGED <<tinfo, probing, ident>>
 
 TReset ==
     /\ l <= Len(Log)
@@ -201,10 +207,12 @@ TReset ==
        /\ NoWrite(r)
        /\ tinfo' = <<>>
        /\ RawNow(r, <<>>)
+       /\ ident' = (IF Has(r.obs, "ident") THEN r.obs.ident ELSE <<>>)
+       /\ IdentOK(r, ident')
     /\ probing' = FALSE
     /\ l' = l + 1
 
-TInit == InitWith("v2") /\ l = 1 /\ tinfo = <<>> /\ probing = FALSE
+TInit == InitWith("v2") /\ l = 1 /\ tinfo = <<>> /\ probing = FALSE /\ ident = <<>>
 TNext == TCall \/ TProbe \/ TReopen \/ TReset
 TSpec == TInit /\ [][TNext]_tvars
 
